@@ -191,7 +191,7 @@ def main(argv=None):
         obs_sorted = sorted(obs, key=lambda o: (not o.get("refined", False),))
         done = False
         for o in obs_sorted[:6]:
-            if not o.get("model"):
+            if o.get("model") is None:
                 continue
             ok, cobs, cab, hit = replay_model(mod, cfg, o["model"], name)
             if ok:
